@@ -279,6 +279,22 @@ _response_sock_one_way_get(struct qb_ipcs_connection * c)
 	return NULL;
 }
 
+/* does the total length of an iovec fit max (without overflowing)? */
+static int32_t
+_iov_fits_(const struct iovec *iov, size_t iov_len, size_t max)
+{
+	size_t total = 0;
+	size_t i;
+
+	for (i = 0; i < iov_len; i++) {
+		if (iov[i].iov_len > max - total) {
+			return QB_FALSE;
+		}
+		total += iov[i].iov_len;
+	}
+	return QB_TRUE;
+}
+
 ssize_t
 qb_ipcs_response_send(struct qb_ipcs_connection *c, const void *data,
 		      size_t size)
@@ -287,6 +303,9 @@ qb_ipcs_response_send(struct qb_ipcs_connection *c, const void *data,
 
 	if (c == NULL) {
 		return -EINVAL;
+	}
+	if (size > c->response.max_msg_size) {
+		return -EMSGSIZE;
 	}
 	qb_ipcs_connection_ref(c);
 	res = c->service->funcs.send(&c->response, data, size);
@@ -315,6 +334,9 @@ qb_ipcs_response_sendv(struct qb_ipcs_connection * c, const struct iovec * iov,
 
 	if (c == NULL) {
 		return -EINVAL;
+	}
+	if (!_iov_fits_(iov, iov_len, c->response.max_msg_size)) {
+		return -EMSGSIZE;
 	}
 	qb_ipcs_connection_ref(c);
 	res = c->service->funcs.sendv(&c->response, iov, iov_len);
@@ -439,6 +461,9 @@ qb_ipcs_event_sendv(struct qb_ipcs_connection * c,
 
 	if (c == NULL) {
 		return -EINVAL;
+	}
+	if (!_iov_fits_(iov, iov_len, c->event.max_msg_size)) {
+		return -EMSGSIZE;
 	}
 	qb_ipcs_connection_ref(c);
 
